@@ -388,6 +388,72 @@ def arm_aliasing(res, rng, bt):
     res.see('aliasing-ok')
 
 
+def arm_shared_subschema(res, rng, tier, T):
+    """One sub-type object used in several places of a schema (x T, y T OPTIONAL, z SEQUENCE OF T): values that differ
+    from place to place must come back as encoded, the shared object must stay as it was, results must not alias it."""
+    if U.base_of(T)[0] == 'any' or 'any' in repr(T):
+        return
+    W = ('seq', (('x', T, 'req', None), ('y', ('tag', 'E', 'P', 1, T), 'opt', None),
+                 ('z', ('tag', 'E', 'P', 2, ('seqof', T)), 'req', None)))
+    o = C.opts_for(tier, rng)
+    try:
+        vs = [U.gen_value(rng, T, o, small=True) for _ in range(4)]
+        v = {'x': vs[0], 'z': vs[2:]}
+        if rng.random() < 0.6:
+            v['y'] = vs[1]
+        e = R.der(W, v) if rng.random() < 0.5 else R.ber_variant(W, v, rng)[0]
+        cache = {}
+        schema = B.schema(W, cache=cache)
+        shared = cache[T]
+    except Exception:
+        return
+    feats = U.type_features(T) | {'arm:shared-subschema'}
+    case = ('c12-shared', T, v)
+    fp_shared, fp_s = B.fingerprint(shared), B.fingerprint(schema)
+    res.see('shared-subschema-checks')
+    outs = []
+    for _ in range(2):
+        try:
+            d, rest = ber_decoder.decode(e, asn1Spec=schema)
+            outs.append((bytes(rest), U.canon(W, B.absval(d, W))))
+        except B.NotAValue as ex:
+            outs.append(('not-a-value', str(ex)[:60]))
+        except Exception as ex:
+            outs.append(('raised', type(ex).__name__))
+    # the same call on a schema without sharing
+    try:
+        d0, rest0 = ber_decoder.decode(e, asn1Spec=B.schema(W))
+        alone = (bytes(rest0), U.canon(W, B.absval(d0, W)))
+    except B.NotAValue as ex:
+        alone = ('not-a-value', str(ex)[:60])
+    except Exception as ex:
+        alone = ('raised', type(ex).__name__)
+    for i, out in enumerate(outs):
+        if out != alone:
+            res.witness('outcome-differs-from-isolated-call:decode-with-shared-subschema', feats, case,
+                        'call %d: shared %r unshared %r' % (i, repr(out)[:200], repr(alone)[:200]))
+            return
+    if B.fingerprint(shared) != fp_shared or B.fingerprint(schema) != fp_s:
+        res.witness('schema-changed-by:decode-with-shared-subschema', feats, case, '')
+        return
+    # encoding a value built over the shared schema
+    try:
+        obj = B.value(W, v, sch=schema)
+        got = der_encoder.encode(obj)
+        want = der_encoder.encode(B.value(W, v))
+    except Exception:
+        res.see('shared-subschema:encode-skipped')
+        return
+    if got != want:
+        res.witness('outcome-differs-from-isolated-call:encode-with-shared-subschema', feats, case,
+                    'shared %s unshared %s' % (got.hex()[:200], want.hex()[:200]))
+        return
+    if B.fingerprint(shared) != fp_shared:
+        res.witness('schema-changed-by:encode-with-shared-subschema', feats, case, '')
+        return
+    res.see('shared-subschema-ok')
+
+
 def arm_interleave(res, rng, bts):
     """k suspended streaming decoders stepped by a random scheduler."""
     decs = []
@@ -734,6 +800,8 @@ def run_shard(shard, tier, seed):
                 arm_aliasing(res, rng, bt2)
                 if i % 3 == 0:
                     arm_logging(res, rng, bt2)
+                if i % 3 == 1:
+                    arm_shared_subschema(res, rng, tier, T)
                 if i % 4 == 1:
                     oc = opentype_case(rng, tier)
                     if oc is not None:
@@ -784,7 +852,12 @@ def replay(case):
     contracts = Contracts()
     contracts.install()
     try:
-        if case[0] == 'c12-open':
+        if case[0] == 'c12-shared':
+            for sd in range(20):
+                arm_shared_subschema(res, random.Random(sd), 'quick', case[1])
+                if res.witnesses:
+                    break
+        elif case[0] == 'c12-open':
             arm_opentypes(res, case)
         elif case[0] in ('c12-history', 'c12-alias', 'c12-logging'):
             T, v = case[1], case[2]
